@@ -60,6 +60,34 @@ fn same(ids: &BTreeSet<u64>, st: &DocSetState) -> bool {
     ids.len() == st.len() && st.keys().all(|k| ids.contains(k))
 }
 
+
+/// A commit whose meta.json write failed has already moved the in-memory "committed" register:
+/// the end of a background merge on the same writer then publishes it (known finding, see
+/// known_findings.txt). Detect that exact situation, report it under its own signature and adopt
+/// the state so that it does not cascade.
+fn check_late_publish(
+    mon: &MonDir,
+    ex: &mut Exec,
+    maybe_later: &mut Option<(DocSetState, Option<String>)>,
+    viol: &mut Vec<(String, Value)>,
+    when: &str,
+) {
+    let Some((would, payload)) = maybe_later.clone() else { return };
+    if let Ok(ids) = observe_snapshot(mon) {
+        if same(&ids, &would) && !same(&ids, &ex.model.committed) {
+            viol.push((
+                "failed-commit-took-effect-later:published-by-end_merge-after-commit-returned-Err".into(),
+                json!({"when": when, "n_ids": ids.len()}),
+            ));
+            ex.model.pending.clear();
+            ex.model.committed = would.clone();
+            ex.model.payload = payload;
+            ex.model.commits.push(would);
+            *maybe_later = None;
+        }
+    }
+}
+
 fn child_main(args: &BTreeMap<String, String>) -> ! {
     install_panic_hook();
     let seed: u64 = args["cseed"].parse().unwrap();
@@ -98,6 +126,7 @@ fn child_main(args: &BTreeMap<String, String>) -> ! {
     let mut ok_commit_returns: Vec<(u64, usize)> = vec![];
     let mut api_calls = 0u64;
     let mut rr = Rng::new(seed ^ 0xfeed);
+    let mut maybe_later: Option<(DocSetState, Option<String>)> = None;
     for op in &ops {
         api_calls += 1;
         let would = ex.model.would_commit();
@@ -114,9 +143,13 @@ fn child_main(args: &BTreeMap<String, String>) -> ! {
             }
         };
         let is_commit = matches!(op, Op::Commit | Op::PrepCommit { abort: false, .. });
+        if std::env::var("C11_DEBUG").is_ok() {
+            eprintln!("op {} -> ok={} err={:?} seq={} files={:?}", op.kind(), out.ok, out.err, mon.seq(), mon.list_files().len());
+        }
         if out.ok {
             if is_commit {
                 ok_commit_returns.push((mon.seq(), ex.model.commits.len() - 1));
+                maybe_later = None;
             }
             continue;
         }
@@ -130,7 +163,12 @@ fn child_main(args: &BTreeMap<String, String>) -> ! {
                 Err(e) => viol.push(("after-failed-commit:index-unreadable".into(), json!({"err": e, "op": op.kind()}))),
                 Ok(ids) => {
                     if same(&ids, &ex.model.committed) {
-                        // not applied
+                        // not applied (yet)
+                        let payload = match op {
+                            Op::PrepCommit { payload, .. } => payload.clone(),
+                            _ => None,
+                        };
+                        maybe_later = Some((would.clone(), payload));
                     } else if same(&ids, &would) {
                         let payload = match op {
                             Op::PrepCommit { payload, .. } => payload.clone(),
@@ -153,14 +191,16 @@ fn child_main(args: &BTreeMap<String, String>) -> ! {
         if matches!(op, Op::Merge { .. } | Op::Gc) {
             continue;
         }
-        if is_commit && rr.bool() {
+        if is_commit && rr.chance(3, 4) {
             // ... but a failed commit does not have to kill the writer: a user may keep it and
             // reclaim space or merge before retrying. Whatever runs now must leave the last
             // successful commit readable.
+            // (Only GC: a merge on a writer whose commit failed publishes the in-memory
+            // "committed" register, i.e. makes the failed commit take effect later - see
+            // DESIGN.md §8, observation on failed commits; the statement speaks of dropping or
+            // rolling back the failed writer.)
             let _ = guarded(|| ex.step(&Op::Gc));
-            if rr.bool() {
-                let _ = guarded(|| ex.step(&Op::Merge { pick: rr.next_u64(), n: 3, wait: true }));
-            }
+            check_late_publish(&mon, &mut ex, &mut maybe_later, &mut viol, "after gc on the same writer");
             match observe_snapshot(&mon) {
                 Err(e) => viol.push((
                     "after-failed-commit+gc:last-commit-unreadable".into(),
@@ -176,6 +216,7 @@ fn child_main(args: &BTreeMap<String, String>) -> ! {
                 }
             }
         }
+        check_late_publish(&mon, &mut ex, &mut maybe_later, &mut viol, "before recovery");
         let recover = if rr.bool() { Op::Rollback } else { Op::Reopen { wait_merges: false } };
         let r = guarded(|| ex.step(&recover));
         match r {
@@ -199,6 +240,7 @@ fn child_main(args: &BTreeMap<String, String>) -> ! {
     // (c) after the faults stopped: drop what is left, new writer, add, commit
     ex.drain_merges();
     ex.abandon_writer();
+    check_late_publish(&mon, &mut ex, &mut maybe_later, &mut viol, "after the faults stopped");
     // whatever the last failed steps left, storage must hold exactly the last committed state
     match observe_snapshot(&mon) {
         Err(e) => viol.push(("after-faults:last-commit-unreadable".into(), json!(e))),
@@ -269,7 +311,19 @@ fn child_main(args: &BTreeMap<String, String>) -> ! {
         }
     }
     for v in mon.take_violations() {
+        // the durable-meta variant of T3 is a crash-safety monitor (C01): after an injected
+        // failure of a directory sync the durable state is unknowable, and C11 does not combine
+        // faults with crashes
+        if v.sig.starts_with("T3:delete-of-file-referenced-by-durable-meta") {
+            continue;
+        }
         viol.push((format!("monitor:{}", v.sig), v.detail));
+    }
+    if let Ok(path) = std::env::var("C11_DUMP") {
+        if !viol.is_empty() {
+            let lines: Vec<String> = log.iter().map(|e| e.brief().to_string()).collect();
+            let _ = std::fs::write(format!("{path}.{}.{}", std::process::id(), args["sel"].replace(":", "_")), format!("{}\n{}", viol.iter().map(|v| v.0.clone()).collect::<Vec<_>>().join(" ; "), lines.join("\n")));
+        }
     }
     println!(
         "{}",
@@ -380,15 +434,29 @@ fn parent_case(case: u64, rng: &mut Rng, rep: &mut Report, per_history: usize) {
     }
     let t_ref = Instant::now();
     let _ = t_ref;
-    for _ in 0..per_history {
-        let k = rng.pick(&keys).clone();
+    // the commit point itself is always among the scenarios: a transient failure of the
+    // meta.json replace and of the directory syncs around it
+    let commit_point: Vec<(String, String, String)> = keys
+        .iter()
+        .filter(|k| k.0 == "updater" && ((k.1 == "atomic_write" && k.2 == "meta") || k.1 == "sync_directory"))
+        .cloned()
+        .collect();
+    for si in 0..per_history {
+        let forced = si < 4 && !commit_point.is_empty();
+        let k = if forced { rng.pick(&commit_point).clone() } else { rng.pick(&keys).clone() };
         let n = occ[&k];
         let nth = match rng.below(3) {
-            0 => 0,
+            0 if !forced => 0,
             1 => n - 1,
             _ => rng.below(n),
         };
-        let mode = if k.1 == "write" && rng.chance(1, 4) { "short" } else { *rng.pick(&["once", "once", "perm", "dead"]) };
+        let mode = if forced {
+            "once"
+        } else if k.1 == "write" && rng.chance(1, 4) {
+            "short"
+        } else {
+            *rng.pick(&["once", "once", "perm", "dead"])
+        };
         let sel = format!("{}:{}:{}:{}:{}", k.0, k.1, k.2, nth, mode);
         rep.eval();
         match run_child(cseed, &sel, Duration::from_secs(60)) {
@@ -468,7 +536,7 @@ fn main() {
         child_main(&args);
     }
     let ctx = Ctx::from_env("C11", "fault_enumeration");
-    let histories = ctx.scale(24, 400) as u64;
+    let histories = ctx.scale(48, 600) as u64;
     let per_history = ctx.scale(14, 40);
     let rep = run_cases(&ctx, "faults", histories, |c, rng, rep| parent_case(c, rng, rep, per_history));
     simple_finish(
